@@ -164,6 +164,17 @@ def rule_a(ctx):
     need2 = canon("||", canon("==", "consts[i].signal", "-1"), canon("==", "consts[i].signal", "info.si_signo"))
     okc = bool(g) and all(need1 in c and need2 in c for c in g)
     ctx.check(okc, rid, "c-match-condition", "a row's code is returned only under native == si_code and (signal == -1 or signal == si_signo)", None, g)
+    extra = []
+    for r in rets:
+        if not r.get("inner"):
+            continue
+        ex = cexpr(r["inner"][0]); iv = int_of(r["inner"][0])
+        if ex == "consts[i].translated" or (iv is not None and unknown and iv == unknown[0]):
+            continue
+        extra.append({"returns": ex, "line": r.get("line")})
+    ctx.check(not extra, rid, "c-returns-only-table-or-unknown", "the C classifier returns nothing but a matched row's code or the Unknown code (no catch-all class "
+              "for unlisted si_code values)", None, {"other_returns": extra, "why": "e.g. treating every negative si_code as 'queued' makes SI_TIMER/SI_ASYNCIO records "
+                                                     "report a timer id as a process id"})
     rt = [cexpr(r["inner"][0]) for r in rets if r.get("inner")]
     ctx.check("consts[i].translated" in rt, rid, "c-returns-translated", "the matched row's translated code is returned", None, rt)
     return rows, disc
